@@ -4,18 +4,29 @@
    correspondence check of C02/C13 (checks/C02.py, pnc/nb_gen.py); executable, no proofs.
    Blocking put/get lines of a script are executed by the SPEC (row-major offsets of Access.v). *)
 From Pnc Require Export Nonblocking.
+Require Import Coq.FSets.FMapPositive.
 Local Open Scope Z_scope.
 
-Record rank_state := mkrs { rs_nb : nbstate; rs_slots : list (Z * Z) }.   (* slot -> stored request id *)
-Record world := mkw { w_ranks : list rank_state; w_file : disk; w_hint : swaphint; w_fmt : Z }.
+(* interpreter speed only: re-tabulate the bytes [lo,hi) of a disk in a balanced map, so that reading a
+   byte no longer walks the chain of all earlier writes (same bytes, extensionally) *)
+Definition freeze (d : disk) (lo hi : Z) : disk :=
+  let m := fold_left (fun m x => PositiveMap.add (Z.to_pos (x - lo + 1)) (dk_get d x) m)
+                     (zrange lo (hi - lo)) (PositiveMap.empty byte) in
+  mkdisk (dk_exists d) (dk_size d)
+         (fun x => if (lo <=? x) && (x <? hi)
+                   then match PositiveMap.find (Z.to_pos (x - lo + 1)) m with Some b => b | None => UNDEF end
+                   else dk_get d x).
 
-Definition init_world (np : Z) (h : swaphint) (fmt : Z) : world :=
-  mkw (map (fun _ => mkrs init_state []) (zrange 0 np)) empty_disk h fmt.
+Record rank_state := mkrs { rs_nb : nbstate; rs_slots : list (Z * Z) }.   (* slot -> stored request id *)
+Record world := mkw { w_ranks : list rank_state; w_file : disk; w_hint : swaphint; w_fmt : Z; w_lo : Z; w_hi : Z }.
+
+Definition init_world (np : Z) (h : swaphint) (fmt lo hi : Z) : world :=
+  mkw (map (fun _ => mkrs init_state []) (zrange 0 np)) empty_disk h fmt lo hi.
 
 Definition get_rank (w : world) (r : Z) : rank_state := znth (w_ranks w) r (mkrs init_state []).
 Definition set_rank (w : world) (r : Z) (rs : rank_state) : world :=
-  mkw (zupd (w_ranks w) r rs) (w_file w) (w_hint w) (w_fmt w).
-Definition set_file (w : world) (f : disk) : world := mkw (w_ranks w) f (w_hint w) (w_fmt w).
+  mkw (zupd (w_ranks w) r rs) (w_file w) (w_hint w) (w_fmt w) (w_lo w) (w_hi w).
+Definition set_file (w : world) (f : disk) : world := mkw (w_ranks w) (freeze f (w_lo w) (w_hi w)) (w_hint w) (w_fmt w) (w_lo w) (w_hi w).
 
 Fixpoint slot_get (sl : list (Z * Z)) (s : Z) : Z :=
   match sl with [] => NC_REQ_NULL | (k, v) :: r => if k =? s then v else slot_get r s end.
@@ -167,16 +178,21 @@ Definition step (w : world) (o : op) : world * list (list Z) :=
       if coll then
         let m := fold_left Z.max (map (fun rs => st_numrecs (rs_nb rs)) (w_ranks w)) nr in
         (mkw (map (fun rs => mkrs (set_numrecs (rs_nb rs) (if g_isrec g then m else st_numrecs (rs_nb rs))) (rs_slots rs)) (w_ranks w))
-             file' (w_hint w) (w_fmt w), [])
+             (freeze file' (w_lo w) (w_hi w)) (w_hint w) (w_fmt w) (w_lo w) (w_hi w), [])
       else (set_file (set_rank w rank (bump (get_rank w rank))) file', [])
   | OGet ln rank g start count stride =>
-      (w, [[10; ln; rank] ++ dk_gather (w_file w) (g_xsz g) (spec_offsets g start count stride)])
+      let e := match g_shape g with
+               | [] => NC_NOERR
+               | _ => check_scs (w_fmt w) false (g_isrec g) true API_VARS (g_shape g)
+                                (st_numrecs (rs_nb (get_rank w rank))) (Some start) (Some count) (Some stride)
+               end in
+      (w, [[10; ln; rank; e] ++ (if e =? NC_NOERR then dk_gather (w_file w) (g_xsz g) (spec_offsets g start count stride) else [])])
   | OSync ln =>
       let m := fold_left Z.max (map (fun rs => st_numrecs (rs_nb rs)) (w_ranks w)) 0 in
-      (mkw (map (fun rs => mkrs (set_numrecs (rs_nb rs) m) (rs_slots rs)) (w_ranks w)) (w_file w) (w_hint w) (w_fmt w), [])
+      (mkw (map (fun rs => mkrs (set_numrecs (rs_nb rs) m) (rs_slots rs)) (w_ranks w)) (w_file w) (w_hint w) (w_fmt w) (w_lo w) (w_hi w), [])
   | OClose ln =>
       let res := map (fun rs => close_pending (rs_nb rs)) (w_ranks w) in
-      (mkw (map (fun p => mkrs (wr_st (snd p)) (rs_slots (fst p))) (zip (w_ranks w) res)) (w_file w) (w_hint w) (w_fmt w),
+      (mkw (map (fun p => mkrs (wr_st (snd p)) (rs_slots (fst p))) (zip (w_ranks w) res)) (w_file w) (w_hint w) (w_fmt w) (w_lo w) (w_hi w),
        flat_map (fun p => let '(rank, r) := p in [8; ln; rank; wr_rc r] :: ev_rows ln rank (st_mem (wr_st r)) (wr_ev r))
                 (zip (zrange 0 (Zlen res)) res))
   | OSnap ln lo hi => (w, [[11; ln; lo] ++ dk_read (w_file w) lo (hi - lo)])
